@@ -133,16 +133,20 @@ pub fn bank_transcript(case: &e3_bank::Case) -> Vec<String> {
     t
 }
 
-/// One line per history: "<kind> <index> <sha256 of the solo transcript>".
+/// One line per history: "<kind> <index> <sha256 of the solo transcript>". A history whose generation or
+/// replay panics (e.g. because a fresh instance cannot even be set up any more) yields the digest "PANIC",
+/// which then differs from the digest of an execution where it worked.
 pub fn digest_lines(seed: u64, chain_n: u64, chain_len: usize, other_n: u64) -> Vec<String> {
     let mut out = vec![];
     for i in 0..chain_n {
-        let (_, t) = chain_history(seed, i, chain_len);
-        out.push(format!("chain {} {}", i, sha(&t)));
+        let d = catch(|| sha(&chain_history(seed, i, chain_len).1)).unwrap_or_else(|_| "PANIC".into());
+        out.push(format!("chain {} {}", i, d));
     }
     for i in 0..other_n {
-        out.push(format!("staking {} {}", i, sha(&staking_transcript(&staking_history(seed, i)))));
-        out.push(format!("bank {} {}", i, sha(&bank_transcript(&bank_history(seed, i)))));
+        let d = catch(|| sha(&staking_transcript(&staking_history(seed, i)))).unwrap_or_else(|_| "PANIC".into());
+        out.push(format!("staking {} {}", i, d));
+        let d = catch(|| sha(&bank_transcript(&bank_history(seed, i)))).unwrap_or_else(|_| "PANIC".into());
+        out.push(format!("bank {} {}", i, d));
     }
     out
 }
